@@ -129,7 +129,10 @@ func TestVerif_C04_LayerMachine(t *testing.T) {
 						UpSync: rapid.Bool().Draw(t, "sync"),
 						NonRef: rapid.IntRange(0, 3).Draw(t, "nonref") == 0,
 						Pid:    uint16(frame), PidBits: 15, Frame: frame, BodyLen: rapid.IntRange(1, 30).Draw(t, "body"),
-						VP8T: true, VP9L: true, VP9P: true,
+						VP8T: true, VP9L: true, VP9P: rapid.IntRange(0, 3).Draw(t, "interPicture") != 0,
+					}
+					if sp.Key && sp.Start {
+						sp.VP9P = false
 					}
 					sp.Marker = sp.End && rapid.Bool().Draw(t, "marker")
 					if codec == "video/VP8" {
